@@ -23,8 +23,9 @@ for DIFF in "$DIR"/m*.diff; do
   for W in orig mut; do
     mkdir -p "$D/$W/$PKGDIR"; cp "$DEMO" "$D/$W/$PKGDIR/zz_seed_demo_test.go"
   done
-  O=$(cd "$D/orig/$PKGDIR" && go test -vet=off -count=1 -run 'Test' . 2>&1 | tail -1)
-  M=$(cd "$D/mut/$PKGDIR" && go test -vet=off -count=1 -run 'Test' . 2>&1 | tail -1)
+  # SEED_RACE=1: the demonstration needs the race detector (changes against C18)
+  O=$(cd "$D/orig/$PKGDIR" && go test ${SEED_RACE:+-race} -vet=off -count=1 -run 'Test' . 2>&1 | tail -1)
+  M=$(cd "$D/mut/$PKGDIR" && go test ${SEED_RACE:+-race} -vet=off -count=1 -run 'Test' . 2>&1 | tail -1)
   rm -f "$D/mut/$PKGDIR/zz_seed_demo_test.go"
   echo "[$K] build/vet: ${B:-clean} | suite: ${T:-pass} | demo orig: $O | demo mut: $M"
   mkdir -p "$D/v"; cp /verif/known_findings.json "$D/v/"
